@@ -1217,6 +1217,7 @@ pub mod verif_hook {
                     ring_mask: p.cq_ring_mask,
                     ring_entries: p.cq_ring_entries,
                     entries: NonNull::new_unchecked(p.cqes),
+                    release_pending: false,
                 },
             }
         }
